@@ -220,6 +220,9 @@ def job_reset(gear_cls, hist):
                 all(v == [] for e in (motor, gear) for v in e.time_variables.values()) and
                 all(k in e.time_variables for e in (motor, gear) for k in [kk for (nm, kk) in samples if nm == e.name]),
                 props=("C12", "C17"))
+        series = [v for e in (motor, gear) for v in e.time_variables.values()]
+        O.prove("reset:every-series-is-its-own-empty-list(no two variables share a list)",
+                len({id(v) for v in series}) == len(series) and all(isinstance(v, list) for v in series), props=("C12", "C17"))
         ok = True
         notrestored = []
         for (nm, var), ser in samples.items():
